@@ -8,12 +8,18 @@
   Proved: conflict-freedom w.r.t. the most recent pulse of every other channel when it
   shares a target (complete for global channels and for 'wait-for-all'); minimality of the
   start instant; the 'no-delay' start; exactness of `estimate_added_delay`.
-  Not proved here (correspondence + monitor only): conflict-freedom w.r.t. an *older* pulse
-  of a local channel that was retargeted since (needs the `FallClear` invariant).
+  `no_conflict` is the full statement over every reachable state: the most recent pulse
+  *sharing a target atom* on any other channel, wherever it lies in that channel's history
+  (behind retargets, behind non-sharing pulses), has ended — fall time included — before the
+  new pulse starts.  It rests on the 'last pulse clear' invariant (Proofs/Conflict*.lean).
+  While proving it, hypothesis A1 turned out not to hold of the code in EOM mode with an EOM
+  slower than the channel: finding F32, repaired in /repo (the scans now use the mode's rise time).
 -/
 import Proofs.Protocol
 import Proofs.SeqInv
 import Proofs.Align
+import Proofs.ConflictSeq
+import Properties.C02
 namespace Pulser
 namespace C03
 
@@ -169,6 +175,72 @@ theorem align_granular (T : Int) (l : List (ChName × Int)) (s : SeqState)
     (∀ m, m ∉ l.map (·.1) → (alignLoop T l s).st.getChan m = s.getChan m) :=
   alignLoop_spec T l s hnd hi hok
 
+/-- The oracle hypotheses on fall times (checked on every pulse by the harness):
+A1 a fall time is at most twice the rise time of its modulation (`Pulse.fall_time` is
+`rise_time + end buffer`, the end buffer is at most `rise_time`) — for the standard mode and
+for the mode the channel is in; A2 the fall time in EOM mode is not longer than in standard
+mode (EOM at least as fast as the channel's own modulation). -/
+def FallHyp (s : SeqState) : Prop :=
+  ∀ c ∈ s.chans, ∀ sl ∈ c.slots, ∀ p, sl.kind = .pulse p →
+    p.fallStd ≤ 2 * c.cfg.rise ∧ p.fall c.inEomMode ≤ 2 * c.modeRise ∧ p.fallEom ≤ p.fallStd
+
+/-- **No conflict, in full.**  In every state reachable by any history of calls (failing ones
+and oracle answers included): when a pulse is placed on channel `n` with 'min-delay' or
+'wait-for-all', then for every other channel `ch` the most recent pulse `q` of `ch` that shares
+a target atom with `n`'s current targets (the most recent pulse at all under 'wait-for-all') —
+wherever `q` lies in `ch`'s history, also behind retargets and behind later pulses on other
+atoms — has ended, fall time in `ch`'s current mode included, when the new pulse starts. -/
+theorem no_conflict (dev : Device) (nQ : Nat) (hd : DevOk dev) (s : SeqState)
+    (hr : C02.Reach dev nQ s) (hfall : FallHyp s)
+    {n : ChName} {c ch : ChanState} (hc : s.getChan n = some c) (hch : ch ∈ s.others n)
+    {p : PulseRec} {barriers : List Int} {proto : Protocol} {drift : Option Drift} {blk : Bool}
+    {slot last q : Slot} {pq : PulseRec} (hl : c.last = .ok last)
+    (h : makeNextPulseSlot dev.maxSeqDur c (s.others n) p barriers proto drift blk = .ok slot)
+    (hproto : proto ≠ .noDelay)
+    (hq : recentShared last.targets (proto == .waitForAll) ch.slots.reverse = some (q, pq)) :
+    q.tf + (pq.fall ch.inEomMode : Nat) ≤ slot.ti := by
+  have hinvs := C02.timeline_inv dev nQ hd s hr
+  have hcm := (getChan_mem hc).1
+  have hchm : ch ∈ s.chans := (List.mem_filter.mp hch).1
+  have hci := hinvs c hcm
+  have hchi := hinvs ch hchm
+  obtain ⟨delay, p', h1, _, _, _, _, _, _, hneed⟩ := makeNextPulseSlot_spec hci.1 hl h
+  -- the LPC invariant of the other channel
+  have hlpc : LPC ch.slots.reverse := by
+    obtain ⟨evs, rfl⟩ := hr
+    have h0 : SeqInv (SeqState.init dev nQ) := by intro c hc; simp [SeqState.init] at hc
+    have hl0 : LPCAll (SeqState.init dev nQ) := by intro c hc; simp [SeqState.init] at hc
+    exact runEv_LPC (s := SeqState.init dev nQ) hd h0 hl0 evs
+      (fun c hc sl hsl p hp => (hfall c hc sl hsl p hp).1) ch hchm
+  have hA : ∀ sl ∈ ch.slots.reverse, ∀ p, sl.kind = .pulse p →
+      p.fall ch.inEomMode ≤ 2 * ch.modeRise ∧ p.fall ch.inEomMode ≤ p.fallStd := by
+    intro sl hsl p hp
+    have := hfall ch hchm sl (List.mem_reverse.mp hsl) p hp
+    refine ⟨this.2.1, ?_⟩
+    unfold PulseRec.fall
+    cases ch.inEomMode with
+    | true => simpa using this.2.2
+    | false => simp
+  have hb : q.tf + (pq.fall ch.inEomMode : Nat) ≤ curMaxOf (s.others n) last barriers proto := by
+    unfold curMaxOf
+    rw [if_pos hproto]
+    apply findAddDelay_ge_of_chan (s.others n) last.targets (proto == .waitForAll) _ ch hch
+    intro cur
+    cases hwa : (proto == .waitForAll) with
+    | true =>
+      rw [hwa, recentShared_all] at hq
+      exact scan_ge _ _ _ _ _ cur (InvR_DescTf hchi.2) (fun s hs p hp => (hA s hs p hp).1) q pq hq
+        (by simp)
+    | false =>
+      rw [hwa] at hq
+      exact scan_ge_shared _ _ _ _ cur (InvR_DescTf hchi.2) (InvR_TargetsRule hchi.2) hlpc
+        (InvR_wf hchi.2) hA q pq hq
+  have := hneed.2.2
+  have hm := Int.le_max_left (curMaxOf (s.others n) last barriers proto - last.tf)
+    (phaseJumpBuffer c last.tf
+      (fmtPhase (correctedPhase p drift (curMaxOf (s.others n) last barriers proto))) proto)
+  omega
+
 /-! ### Non-vacuity -/
 
 def cfgA : ChanCfg := { clock := 4, minDur := 16, rise := 120, pjt := 240 }
@@ -184,6 +256,45 @@ def exS : SeqState :=
 /-- the second pulse starts at 100 + 200 = 300, not before -/
 example : (exS.chans.map (·.slots.map fun s => (s.ti, s.tf))) =
     [[(-1, 0), (0, 100)], [(-1, 0), (0, 300), (300, 352)]] := by decide +kernel
+
+/-- Executable form of `FallHyp` (for the example below). -/
+def fallHypB (s : SeqState) : Bool :=
+  s.chans.all fun c => c.slots.all fun sl =>
+    match sl.kind with
+    | .pulse p => decide (p.fallStd ≤ 2 * c.cfg.rise) && decide (p.fall c.inEomMode ≤ 2 * c.modeRise) &&
+        decide (p.fallEom ≤ p.fallStd)
+    | _ => true
+
+theorem fallHyp_of_B {s : SeqState} (h : fallHypB s = true) : FallHyp s := by
+  intro c hc sl hsl p hp
+  unfold fallHypB at h
+  have := List.all_eq_true.mp (List.all_eq_true.mp h c hc) sl hsl
+  simp only [hp, Bool.and_eq_true, decide_eq_true_eq] at this
+  exact ⟨this.1.1, this.1.2, this.2⟩
+
+def cfgL : ChanCfg := { clock := 4, minDur := 16, rise := 120, pjt := 240, isLocal := true, minRetarget := 220 }
+def exDevL : Device := { chans := [cfgL, cfgL], dmms := [], reusable := false, maxSeqDur := none }
+def exOpsL : List Op :=
+  [.declare (.user 0) 0 (some [0]), .declare (.user 1) 1 (some [0]),
+   .add { dur := 400, fallStd := 200, ref := 1 } (.user 0) (some .minDelay),   -- on atom 0
+   .target [1] (.user 0),
+   .add { dur := 100, fallStd := 120, ref := 2 } (.user 0) (some .minDelay)]   -- on atom 1
+
+/-- channel 0 played a pulse on atom 0, was retargeted to atom 1 and played another pulse;
+channel 1 (on atom 0) now adds a pulse. -/
+def exL : SeqState := run (SeqState.init exDevL 2) exOpsL
+
+/-- The hypotheses of `no_conflict` are met by this reachable state, with the sharing pulse
+lying *behind* a retarget and a later pulse on another atom: it ended at 400 with fall time
+200 (the retarget waited for it: the target instruction is at 600); the later pulse on atom 1
+ends at 700 with fall time 120 and imposes nothing on a pulse for atom 0. -/
+example :
+    C02.Reach exDevL 2 exL ∧ FallHyp exL ∧
+    (exL.chans.map (·.slots.map fun s => (s.ti, s.tf, s.targets))) =
+      [[(-1, 0, [0]), (0, 400, [0]), (400, 600, [0]), (600, 600, [1]), (600, 700, [1])], [(-1, 0, [0])]] ∧
+    ((exL.chans[0]?.map fun ch => (recentShared [0] false ch.slots.reverse).map fun x => (x.1.ti, x.1.tf, x.2.fallStd))
+      = some (some (0, 400, 200))) :=
+  ⟨C02.Reach.of_run exDevL 2 exOpsL, fallHyp_of_B (by decide +kernel), by decide +kernel, by decide +kernel⟩
 
 end C03
 end Pulser
